@@ -104,10 +104,18 @@ CLAIMS['C08'] = dict(
           "the impls/derive intend - Bnd - then sdec parses the encoding of EVERY value exactly: built-ins, derived "
           "structs/enums with skips and discriminants, IpAddr), C08_builtin_bound (for_type binds everything as "
           "intended for every composition of built-in impls: add_definition as a sorted-map insertion, monotone), "
-          "C08_builtin_describes (end to end). Partial: for derived types Bnd is not derived from schemaOf - exactly "
-          "there the proof obligation fails (the derive skips the fields of a declaration already present): known "
-          "finding F8 with witness theorem C08_F8_same_name_witness; derived items are tied by the differential run "
-          "and the schema-only reader oracle."),
+          "C08_builtin_describes (end to end). For the WHOLE universe, derived structs and enums included: "
+          "C08_coherent_bound / C08_describes - for every name-coherent type (coherentB: among the guarded items - derived "
+          "structs, per-variant inner structs, Ipv4Addr-style built-ins - a declaration identifies the item, and no "
+          "unguarded declaration is an item's name; i.e. the type does not combine two different user types of one name, "
+          "which the crate documents as unsupported) the container for_type generates binds every declaration as intended "
+          "and therefore a schema-only reader parses every encoding of every value exactly; proof: an invariant threaded "
+          "through add_definitions_recursively (every guarded item whose name is in the map is completely bound or still "
+          "open on the call stack), by induction over the universe (adds_coh). The driver evaluates the theorem's "
+          "hypotheses for every catalogue type (hyp08 lines: all 236 schema types, the 98 generated derived items "
+          "included, satisfy them). What stays outside: types that are NOT name-coherent - exactly finding F8 (known "
+          "finding, witness theorem C08_F8_same_name_witness, shown non-coherent by a kernel-evaluated example) - and "
+          "recursive user types (tied by the differential run and the schema-only reader oracle only)."),
     technique="Lean 4 proof (schema-only reader parses every encoding exactly, induction over the universe; map-insertion spec of add_definition) + byte-exact differential check of containers + schema-only reader oracle",
     design_ref="§5 C08")
 CLAIMS['C09'] = dict(
@@ -169,7 +177,7 @@ CLAIMS['C17'] = dict(
           "pairs (T written, U read) x values vs the model; single-bit corruptions of the embedded schema; thousands "
           "of generated containers round-tripped through the real to_vec/from_slice (equal container, identical "
           "bytes). Partial: the round-trip theorem assumes the type's own container is a well-typed wire value "
-          "(decidable per type; UTF-8 names, ascending definitions) and keysOk. C17_foreign_rejected (what try_to_vec_with_schema::<T> wrote is never accepted at a type U whose schema differs, both modes), C17_container_roundtrip (every well-typed container, hostile ones included, reads back as the same container with nothing left), C17_container_canonical (definitions of every generated container - derived items with the derive's shortcut included - are in strictly ascending name order; pres_all by induction over the universe), C17_definitions_only_added."),
+          "(decidable per type; UTF-8 names, ascending definitions) and keysOk. C17_foreign_rejected (what try_to_vec_with_schema::<T> wrote is never accepted at a type U whose schema differs, both modes), C17_container_roundtrip (every well-typed container, hostile ones included, reads back as the same container with nothing left), C17_container_canonical (definitions of every generated container - derived items with the derive's shortcut included - are in strictly ascending name order; pres_all by induction over the universe), C17_definitions_only_added. The schema-prefixed reader as an entry point for untrusted, whole input: C17_with_schema_trailing_rejected_partial (bytes after the value: not-all-bytes-read), C17_with_schema_prefix_rejected_partial (every proper prefix rejected, cut in the schema or in the value), C17_with_schema_safe (for every byte string - hostile embedded schemas included - no panic and every refusal is InvalidData; the embedded container is only decoded and compared, never validated or measured). Workloads: with_schema_framing (tails, two blobs, every prefix), with_schema_hostile (doubling definition graphs, 30 000-deep chains on a 512 KiB stack under a watchdog), same-named types through the helpers in both orders."),
     technique="Lean 4 proof (acceptance implies schema equality) + differential check over type pairs and generated containers",
     design_ref="§5 C17")
 
